@@ -321,8 +321,9 @@ impl<const BITS: usize, const LIMBS: usize> Uint<BITS, LIMBS> {
 
     #[inline(always)]
     const fn masked(mut self) -> Self {
-        if Self::SHOULD_MASK {
-            self.limbs[LIMBS - 1] &= Self::MASK;
+        // `Self::LIMBS` (rather than `LIMBS`) asserts that the type is well-formed.
+        if Self::LIMBS > 0 && Self::SHOULD_MASK {
+            self.limbs[Self::LIMBS - 1] &= Self::MASK;
         }
         self
     }
